@@ -270,8 +270,26 @@ func Drive(out io.Writer, seed int64, runs, length int) (map[string]int, error) 
 		if err := enc.Encode(M{"reset": true, "run": int64(run), "scale": conc.U.String(), "seed": conc.Seed, "state": d.st()}); err != nil {
 			return nil, err
 		}
-		for i := 0; i < length; i++ {
-			e := d.next()
+		// every sixth run starts with a LONG output log on its first bridge (more outputs than one page of the SDK's default
+		// pagination), restarts from genesis and extends the log - histories the random phase never reaches
+		var scripted []M
+		if run%6 == 5 {
+			scripted = append(scripted, M{"type": "CreateBridge", "signer": "u1", "cfg": M{"proposer": "p1", "challenger": "c1", "period": int64(2), "interval": int64(2), "startH": int64(1),
+				"oracle": false, "meta": M{"cls": "none", "chs": []any{}}, "bsub": "s1", "bchain": "INITIA"}})
+			for k := int64(1); k <= 104; k++ {
+				scripted = append(scripted, M{"type": "ProposeOutput", "signer": "p1", "b": int64(1), "idx": k, "l2bn": k, "bad": "none", "root": M{"v": int64(0), "t": "TJ", "h": "h" + fmt.Sprint(k%3)}})
+			}
+			scripted = append(scripted, M{"type": "ExportImport"}, M{"type": "ProposeOutput", "signer": "p1", "b": int64(1), "idx": int64(105), "l2bn": int64(105), "bad": "none", "root": M{"v": int64(0), "t": "TJ", "h": "h1"}},
+				M{"type": "Query", "q": "OutputProposals", "b": int64(1), "idx": int64(0), "denom": "d1", "w": M{"seq": int64(1), "from": "u1", "to": "u2", "denom": "d1", "amt": int64(1)}, "offset": int64(0), "limit": int64(0), "reverse": false},
+				M{"type": "DeleteOutput", "signer": "c1", "b": int64(1), "idx": int64(103)})
+		}
+		for i := 0; i < length+len(scripted); i++ {
+			var e M
+			if i < len(scripted) {
+				e = scripted[i]
+			} else {
+				e = d.next()
+			}
 			if absx.Str(e["type"]) == "FinalizeTokenWithdrawal" {
 				cb := d.ch.BuildClaim(e)
 				e["root"] = cb.RootName
